@@ -5,6 +5,7 @@ package main
 // pure standard-library functions on concrete arguments.
 
 import (
+	"crypto/sha1"
 	"fmt"
 	"go/types"
 	"net"
@@ -612,6 +613,9 @@ func (e *Engine) installIntrinsics() {
 		}
 		return tuple{m.ctx.BV(uint64(int64(n)), 64), ev}
 	}
+	in["internal/abi.NoEscape"] = func(m *machine, _ *frame, fn *ssa.Function, args []value) value {
+		return args[0]
+	}
 	in["os.Getenv"] = func(m *machine, _ *frame, fn *ssa.Function, args []value) value {
 		return strV{}
 	}
@@ -713,6 +717,27 @@ type ufCall struct {
 
 func (m *machine) uf(tag string, in []*Term, n int) []*Term {
 	key := "uf:" + tag
+	if tag == "sha1" && n == 20 {
+		// on concrete input the function itself is evaluated
+		conc := make([]byte, len(in))
+		all := true
+		for i, t := range in {
+			v, ok := t.Const()
+			if !ok {
+				all = false
+				break
+			}
+			conc[i] = byte(v)
+		}
+		if all {
+			sum := sha1.Sum(conc)
+			out := make([]*Term, 20)
+			for i := range out {
+				out[i] = m.ctx.BV(uint64(sum[i]), 8)
+			}
+			return out
+		}
+	}
 	var calls []ufCall
 	if v, ok := m.side[key]; ok {
 		calls = v.([]ufCall)
